@@ -8,7 +8,6 @@ use alloc::{string::String};
 use alloc::format;
 use alloc::string::ToString;
 use crate::session::Session;
-use crate::tools::do_divition;
 use core::ops::Deref;
 
 use crate::config::SmartCalcConfig;
@@ -22,6 +21,7 @@ pub const WEEK: i64 = DAY * 7;
 pub const MONTH: i64 = DAY * 30;
 pub const YEAR: i64 = DAY * 365;
 
+#[cfg(test)]
 fn fract_information(f: f64) -> u64 {
     let eps = 1e-4;
     let mut f = f.abs().fract();
@@ -43,18 +43,15 @@ pub fn left_padding(number: i64, size: usize) -> String {
 }
 
 pub fn format_number(number: f64, thousands_separator: String, decimal_separator: String, decimal_digits: u8, remove_fract_if_zero: bool, use_fract_rounding: bool) -> String {
-    let divider      = 10_f64.powi(decimal_digits.into());
-    let fract_number = do_divition((number * divider).round(), divider);
-    let trunc_part   = fract_number.trunc().abs().to_string();
-
     let formated_number = match use_fract_rounding {
         true => format!("{:.width$}", &number.abs(), width = decimal_digits.into()),
         false => format!("{}", &number.abs())
     };
 
-    let fract_part = fract_information(fract_number.fract());
-    let trunc_size = trunc_part.len();
-    let mut trunc_dot_index = 3 - (trunc_part.len() % 3);
+    /* The integer part and the zero-fraction test are read from the printed digits themselves */
+    let trunc_size = formated_number.find('.').unwrap_or(formated_number.len());
+    let fract_is_zero = formated_number.chars().skip(trunc_size + 1).all(|ch| ch == '0');
+    let mut trunc_dot_index = 3 - (trunc_size % 3);
     let mut trunc_formated = String::new();
 
 
@@ -70,7 +67,7 @@ pub fn format_number(number: f64, thousands_separator: String, decimal_separator
         }
     }
     
-    if (fract_part > 0 || !remove_fract_if_zero) && trunc_size != formated_number.len() {
+    if (!fract_is_zero || !remove_fract_if_zero) && trunc_size != formated_number.len() {
         trunc_formated.push_str(&decimal_separator);
 
         for index in (trunc_size+1)..formated_number.len() {
